@@ -366,7 +366,15 @@ def ejection_model(ctx):
                             env['self.molecules_per_cell'] = groups
                             before = {g_: list(v_) for g_, v_ in groups.items()}
                         out = {}
-                        ys = run_function(step, ['<self>', '<fragment>'], env=env, budget=60000, call_hook=hook, out_scope=out) or []
+                        try:
+                            ys = run_function(step, ['<self>', '<fragment>'], env=env, budget=60000, call_hook=hook, out_scope=out) or []
+                        except Raised as r_:
+                            if r_.name in ('IndexError', 'KeyError', 'ValueError', 'TypeError', 'AttributeError', 'RuntimeError'):
+                                # the step itself fails on a model buffer: that is a finding, not a limit of the interpreter
+                                ctx._ejection_model = (False, n, {'pooling_method': pm, 'buffer (ejectable?)': [t[2] for t in toks] if pm == 0 else {g_: [t[2] for t in v_] for g_, v_ in before.items()},
+                                                                  'problem': f'the ejection step raises {r_.name} ({str(r_)[:60]})'})
+                                return ctx._ejection_model
+                            raise
                         after = {'L': out.get('self.molecules')} if pm == 0 else dict(out.get('self.molecules_per_cell') or {})
                         want_y = [t for t in toks if t[2]]
                         case = {'pooling_method': pm, 'buffer (ejectable?)': [t[2] for t in toks] if pm == 0 else {g_: [t[2] for t in v_] for g_, v_ in before.items()}}
